@@ -9,6 +9,36 @@ namespace MpycV.SecFldCfg
 /-- a truthy Python value -/
 def Truthy (x : Option Nat) (c : Nat) : Prop := x = some c ∧ 0 < c
 
+/-- a genuine finite field description -/
+def Field.Valid (F : Field) : Prop := Nat.Prime F.char ∧ 1 ≤ F.extDeg ∧ F.order = F.char ^ F.extDeg
+
+theorem mkField_ok {o : Oracles} {md : Modulus} {F : Field} (h : mkField o md = .ok F) :
+    (∃ n, md = .int n ∧ isPrime n = true ∧ F = ⟨n, 1, n, none⟩) ∨
+    (∃ p f, md = .poly p f ∧ o.irr p f = true ∧ F = ⟨p, f.length - 1, p ^ (f.length - 1), some f⟩) := by
+  unfold mkField at h
+  cases md with
+  | none => cases h
+  | str cs => cases h
+  | int n =>
+    simp only [gfInt] at h
+    split at h
+    · rename_i hp
+      simp only [Except.ok.injEq] at h
+      exact Or.inl ⟨n, rfl, hp, h.symm⟩
+    · cases h
+  | poly p f =>
+    simp only [gfPoly] at h
+    split at h
+    · rename_i hp
+      simp only [Except.ok.injEq] at h
+      exact Or.inr ⟨p, f, rfl, hp, h.symm⟩
+    · cases h
+
+theorem le_of_orD_some_le {n d b : Nat} (h : orD (some n) d ≤ b) : n ≤ b := by
+  cases n with
+  | zero => exact Nat.zero_le _
+  | succ k => simpa [orD] using h
+
 theorem orD_truthy {x : Option Nat} {d c : Nat} (h : Truthy x c) : orD x d = c := orD_some_pos h.1 h.2
 
 theorem stepOrder_ok {a : Args} {c e : Option Nat} (h : stepOrder a = .ok (c, e)) :
